@@ -93,25 +93,50 @@ def rename_members(data, mapping):
 
 
 def manufactured_deck(rnd, nslides=3):
-    """Deck whose slide part names are gapped and out of presentation order (slide7/slide3/slide1...)."""
+    """Deck whose slide part names are out of presentation order - gapped (slide7/slide3/slide1...) or a permutation of
+    1..n (dense) - and, in half of them, whose picture parts share an index under different extensions
+    (image1.png, image1.jpg, image2.png: "duplicate pre-existing names", as producers other than PowerPoint write them)."""
     import pptx
 
+    from . import gen
+
     prs = pptx.Presentation()
+    media = rnd.random() < 0.5
     for i in range(nslides):
         s = prs.slides.add_slide(prs.slide_layouts[rnd.choice([0, 1, 5, 6])])
         tb = s.shapes.add_textbox(100, 100, 914400, 914400)
         tb.text_frame.text = "slide %d" % (i + 1)
         if rnd.random() < 0.5:
             s.notes_slide.notes_text_frame.text = "notes %d" % (i + 1)
+    if media:
+        s = prs.slides[0]
+        for fmt in ("PNG", "JPEG", "PNG"):  # -> image1.png, image2.jpg, image3.png
+            s.shapes.add_picture(io.BytesIO(gen.png_bytes(rnd, fmt=fmt)), 0, 0)
     buf = io.BytesIO()
     prs.save(buf)
-    nums = rnd.sample(range(1, 12), nslides)
-    if nums == sorted(nums) and nums[0] == 1:
-        nums = list(reversed(nums))
+    data = buf.getvalue()
+    if rnd.random() < 0.4:
+        nums = list(range(1, nslides + 1))
+        while nums == sorted(nums):
+            rnd.shuffle(nums)
+    else:
+        nums = rnd.sample(range(1, 12), nslides)
+        if nums == sorted(nums) and nums[0] == 1:
+            nums = list(reversed(nums))
     # two-step rename through temporary names to allow permutations
     m1 = {"/ppt/slides/slide%d.xml" % (i + 1): "/ppt/slides/tmpslide%d.xml" % (i + 1) for i in range(nslides)}
     m2 = {"/ppt/slides/tmpslide%d.xml" % (i + 1): "/ppt/slides/slide%d.xml" % nums[i] for i in range(nslides)}
-    return rename_members(rename_members(buf.getvalue(), m1), m2), nums
+    data = rename_members(rename_members(data, m1), m2)
+    if media:
+        names = sorted(n for n in opcx.Pkg.from_bytes(data).members if n.startswith("ppt/media/image"))
+        jpg = [n for n in names if not n.endswith(".png")]
+        png = [n for n in names if n.endswith(".png")]
+        if len(jpg) == 1 and len(png) == 2:
+            ext = jpg[0].rsplit(".", 1)[1]
+            m = {"/" + jpg[0]: "/ppt/media/tmpimage1." + ext, "/" + png[1]: "/ppt/media/tmpimage2.png"}
+            data = rename_members(data, m)
+            data = rename_members(data, {"/ppt/media/tmpimage1." + ext: "/ppt/media/image1." + ext, "/ppt/media/tmpimage2.png": "/ppt/media/image2.png"})
+    return data, nums
 
 
 def open_start(start, rnd):
